@@ -23,6 +23,9 @@ ASSUMPTIONS = [
     "10^+-0.5 of truth, initial contact point within +-min(0.2 um, 20% of "
     "the contact depth), baseline 0, weighting window <= 0.4 contact depth",
     "nelder judged for moduli >= 1 kPa only (scipy's absolute xatol=1e-4)",
+    "noisy nelder fits that stop above twice the objective value of the "
+    "generating parameters are counted, not judged (at most max(3, 1 %) per "
+    "shard)",
     "minimisers leastsq and nelder only (scipy's absolute tolerances stop "
     "the others at once on SI-scaled data: not a nanite property)",
     "noise bound = c x Cramer-Rao sd from the reference formulas' Jacobian "
@@ -197,6 +200,21 @@ def one_case(rec, tap, rng, cid):
     if wcp > 0 and (spec["snr"] < 100 or wcp > depth / 4):
         rec.event("noisy fits outside the judged domain (weighting)")
         return
+    if method == "nelder":
+        # scipy's Nelder-Mead stops on *absolute* simplex size / objective
+        # spread (xatol = fatol = 1e-4; the objective is ~1e-18 N^2, contact
+        # point and baseline ~1e-7): it can stop well above the minimum. An
+        # objective value more than twice that of the generating parameters
+        # shows that the minimiser, not the estimate, is short of the
+        # optimum: not judged, but counted - the share is bounded per shard.
+        yseg = np.asarray(idnt["force"])[segm]
+        w = ref.cp_weights(x, full["contact_point"], wcp)
+        chi_true = float(np.sum(((yseg - clean) * w) ** 2))
+        rec.event("noisy nelder fits")
+        if fp["chi_sqr"] > 2 * chi_true:
+            rec.event("noisy nelder fits stopped above the objective of the "
+                      "generating parameters (not judged)")
+            return
     c = 10.0 if wcp == 0 else 25.0
     sd = dict(zip(varied, crb(spec["model"], full, varied, x, wcp, sigma)))
     rec.event("noisy fits judged")
@@ -229,6 +247,14 @@ def run_shard(rec, tier, seed, shard, nshards):
         for i in range(N_CASES[tier]):
             one_case(rec, tap, core.case_rng(seed, ID, shard, i), [shard, i])
         rec.event("lmfit.minimize calls from nanite.fit", tap.nfit())
+    ev = rec.events
+    nn = ev.get("noisy nelder fits", 0)
+    npre = ev.get("noisy nelder fits stopped above the objective of the "
+                  "generating parameters (not judged)", 0)
+    rec.check(npre <= max(3, .01 * nn), "nelder/stops-short-too-often",
+              "%d of %d noisy Nelder-Mead fits stopped above the objective "
+              "value of the generating parameters" % (npre, nn),
+              {"id": [shard, -1]})
 
 
 def replay(rec, case):
